@@ -16,6 +16,17 @@
 #undef condition_variable
 #undef thread
 #undef atomic
+#undef recursive_mutex
+#undef timed_mutex
+#undef recursive_timed_mutex
+#undef shared_mutex
+#undef shared_timed_mutex
+#undef condition_variable_any
+#undef once_flag
+#undef call_once
+#undef yield
+#undef sleep_for
+#undef sleep_until
 
 namespace simsched {
 
@@ -36,6 +47,8 @@ struct ThreadRec {
   long prio = 0;
   int open_buf = -1;   // monitor: buffer this (worker) thread is between access and next sched point on
   const char *stack_lo = nullptr, *stack_hi = nullptr;   // 'tsi': bounds of this thread's own stack
+  long last_run = 0;   // step at which this thread was last given the processor
+  int spin = 0;        // consecutive retry-like scheduling points (atomic operation, try_lock, yield) without any other synchronisation
   int hot_trail = 0;   // 'tsi': number of following accesses of this thread that are scheduling points whatever they touch
 };
 
@@ -71,6 +84,7 @@ struct Session {
   std::vector<long> pct_points;
   long low_prio = -1;
   int last_kind = 0;
+  long spin_steps = 0;   // steps that were retries (see ThreadRec::spin); budgeted separately
   bool enum_spur_done = false;
 };
 
@@ -106,7 +120,7 @@ const char *ev_name(int k) {
   static const char *n[] = {"?", "lock_req", "lock_acq", "unlock", "cv_wait", "cv_wake", "notify_one", "notify_all",
                             "thread_create", "thread_start", "thread_exit", "join_req", "join_done",
                             "look", "relook", "load_begin", "load_end", "export_begin", "export_end", "group",
-                            "spy_enter", "spy_exit", "spurious", "io_read", "io_write", "io_seek", "trylock", "timeout", "atomic", "mem"};
+                            "spy_enter", "spy_exit", "spurious", "io_read", "io_write", "io_seek", "trylock", "timeout", "atomic", "mem", "yield"};
   return (k > 0 && k < EV_KIND_MAX) ? n[k] : "?";
 }
 const char *strategy_name(int s) {
@@ -167,6 +181,8 @@ static void record(int kind, int obj, long a) {
   h = fnv1a_u64(h, (uint64_t)a);
   S.res.trace_hash = h;
   S.last_kind = kind;
+  if (kind == EV_ATOMIC || kind == EV_TRYLOCK || kind == EV_YIELD) { if (me->spin++ > 0) S.spin_steps++; }
+  else if (kind != EV_MEM && kind != EV_IO_READ && kind != EV_IO_WRITE && kind != EV_IO_SEEK) me->spin = 0;
 }
 
 static int next_mtx_id = 0, next_cv_id = 0;
@@ -230,7 +246,7 @@ static ThreadRec *default_pick(const std::vector<ThreadRec *> &cand, ThreadRec *
 }
 
 // returns the next thread to run, or nullptr if nobody can run
-static ThreadRec *choose(bool cur_runnable) {
+static ThreadRec *choose(bool cur_runnable, bool fair = false) {
   ThreadRec *cur = S.cur;
   std::vector<ThreadRec *> cand, cvw, timedw;
   for (ThreadRec *t : S.th) {
@@ -304,6 +320,11 @@ static ThreadRec *choose(bool cur_runnable) {
       for (ThreadRec *t : cand) if (t->id == v) pick = t;
     }
     if (!pick) pick = default_pick(cand, cur, cur_in);
+  } else if (fair) {
+    // the current thread gives way (yield, sleep, or the fairness rule for polling loops): whoever has waited longest
+    // runs, whatever the strategy, so that every runnable thread gets the processor again and again
+    pick = cand[0];
+    for (ThreadRec *t : cand) if (t->last_run < pick->last_run) pick = t;
   } else {
     switch (S.cfg.strategy) {
     case ST_RR: {
@@ -375,6 +396,7 @@ static void switch_to(ThreadRec *next) {
   ThreadRec *me = S.cur;
   if (next == me) return;
   S.res.switches++;
+  next->last_run = S.res.steps;
   S.cur = next;
   sem_post(&next->sem);
   sem_wait_retry(&me->sem);
@@ -382,15 +404,29 @@ static void switch_to(ThreadRec *next) {
 }
 
 static void check_budget() {
-  if (S.res.steps > S.cfg.step_budget)
+  // polling loops are legal and their length depends on how long the scheduler keeps the awaited thread away: repeated
+  // retries get a budget of their own (64 times larger), so that only polling that never ends is reported
+  if (S.res.steps - S.spin_steps > S.cfg.step_budget || S.spin_steps > 64 * S.cfg.step_budget)
     fail(FAIL_BUDGET, "step budget exceeded (" + std::to_string(S.cfg.step_budget) + "): " + blocked_table());
 }
 
 // scheduling point for a thread that stays runnable
+static const int SPIN_LIMIT = 64;
 static void yield_point() {
   check_budget();
-  ThreadRec *n = choose(true);
-  switch_to(n);
+  // fairness: a thread that only retries (polls an atomic, try_lock, yield) cannot keep the processor for ever on a real
+  // machine; after SPIN_LIMIT such points in a row another runnable thread gets its turn whatever the strategy says
+  bool fair = S.cur->spin > SPIN_LIMIT;
+  if (fair) S.cur->spin = 0;
+  ThreadRec *n = choose(!fair, fair);
+  if (n) switch_to(n);
+}
+
+// this_thread::yield / sleep: like yield_point, but another runnable thread is preferred
+static void yield_away() {
+  check_budget();
+  ThreadRec *n = choose(false, true);
+  if (n) switch_to(n);
 }
 
 // current thread has set its state to blocked; run somebody else
@@ -660,7 +696,7 @@ void session_begin(const SchedConfig &cfg) {
   g_shadow.clear();
   next_mtx_id = 0; next_cv_id = 0;
   S.buf_base = S.ctrl_base = nullptr; S.nbuf = 0; S.bm.clear(); S.io_tid = -1;
-  S.last_kind = 0;
+  S.last_kind = 0; S.spin_steps = 0;
   S.enum_spur_done = false;
   S.low_prio = -1;
   S.pct_points.clear();
@@ -764,7 +800,14 @@ void sim_atomic_after(const void *addr, int kind) {
   }
 }
 
-sim_mutex::sim_mutex() noexcept {}
+void sim_yield_event() {
+  Busy busy_guard;
+  if (!S.active) return;
+  record(EV_YIELD, 0, 0);
+  close_interval(S.cur);
+  yield_away();
+}
+
 sim_mutex::~sim_mutex() {
   Busy busy_guard;
   if (S.active) S.mtx_id.erase(this);
@@ -960,3 +1003,56 @@ void sim_thread::detach() {
 sim_thread::id sim_thread::get_id() const noexcept { return rec_ ? rec_->real.get_id() : id(); }
 
 } // namespace std
+
+
+// ---------------------------------------------------------------- function-local statics (__cxa_guard_*)
+// A thread that is preempted inside the initialiser of a function-local static (possible wherever the initialiser contains a
+// scheduling point, e.g. any shared store in a 'tsi' build) would leave the next thread that reaches the same static blocked
+// in the C++ runtime's futex, i.e. for real, and the simulation would stand still.  Linked with --wrap, the guard protocol
+// is played on a simulated mutex per guard instead: same semantics (one initialiser runs, the others wait for it and then see
+// its result), but the waiting happens inside the simulator.
+extern "C" {
+int __real___cxa_guard_acquire(uint64_t *);
+void __real___cxa_guard_release(uint64_t *);
+void __real___cxa_guard_abort(uint64_t *);
+}
+namespace {
+struct GuardTab {
+  std::unordered_map<uint64_t *, std::sim_mutex *> m;   // never freed: one entry per function-local static ever contended in a session
+};
+static GuardTab *g_guardtab = nullptr;
+static inline bool guard_sim() { return simsched::tl_sim && simsched::S.active && !simsched::g_busy && simsched::S.cur; }
+}
+extern "C" int __wrap___cxa_guard_acquire(uint64_t *g) {
+  if (!guard_sim()) return __real___cxa_guard_acquire(g);
+  if (__atomic_load_n((uint8_t *)g, __ATOMIC_ACQUIRE)) return 0;
+  std::sim_mutex *m;
+  {
+    simsched::Busy busy_guard;
+    if (!g_guardtab) g_guardtab = new GuardTab;
+    std::sim_mutex *&slot = g_guardtab->m[g];
+    if (!slot) slot = new std::sim_mutex;
+    m = slot;
+  }
+  m->lock();
+  if (__atomic_load_n((uint8_t *)g, __ATOMIC_ACQUIRE)) { m->unlock(); return 0; }
+  return 1;
+}
+static std::sim_mutex *guard_owned(uint64_t *g) {
+  if (!guard_sim() || !g_guardtab) return nullptr;
+  simsched::Busy busy_guard;
+  auto it = g_guardtab->m.find(g);
+  if (it == g_guardtab->m.end() || it->second->owner_ != simsched::S.cur->id) return nullptr;
+  return it->second;
+}
+extern "C" void __wrap___cxa_guard_release(uint64_t *g) {
+  std::sim_mutex *m = guard_owned(g);
+  if (!m) { __real___cxa_guard_release(g); return; }
+  __atomic_store_n((uint8_t *)g, 1, __ATOMIC_RELEASE);
+  m->unlock();
+}
+extern "C" void __wrap___cxa_guard_abort(uint64_t *g) {
+  std::sim_mutex *m = guard_owned(g);
+  if (!m) { __real___cxa_guard_abort(g); return; }
+  m->unlock();
+}
